@@ -15,6 +15,8 @@ the new id.
 R13.5 initial values: amount if finite; concentration only if finite and the amount left 0.
 R13.6 assembly: all species, parameter values, the 8 reaction fields and the rule tuples reach
 the model.
+R13.7 sample documents: import_sbml_reactions partially evaluated on three un-annotated sample documents returns the expanded species
+lists and a propensity whose rate is the kinetic law (text for general, algebraically equal product for a recognised special form).
 """
 import ast
 
